@@ -22,7 +22,6 @@ from __future__ import annotations
 
 import pickle
 import random as _random
-import time
 
 from mc.evidence import digest
 from mc.harness import Instant  # noqa: F401  (also sets VERIF_REPO import root)
@@ -163,6 +162,11 @@ def alphabet(name):
     ops += [("pop",), ("peek",)]
     ops += [(e,) for e in extra]
     return ops
+
+
+def describe(name):
+    w = World(name)
+    return f"{type(w.pol).__name__}(capacity={w.pol.capacity})"
 
 
 def depth_for(name, budget):
@@ -499,7 +503,3 @@ def replay(config, ops):
     finally:
         _random.random = saved
     return out
-
-
-def timer():
-    return time.time()
